@@ -2,7 +2,7 @@
 # Builds the overlay and the simulator binary from /repo's current working tree. Exit 2 on failure.
 set -u
 export GOFLAGS=-mod=mod GOPROXY=off GOTOOLCHAIN=local GONOSUMDB=* GONOSUMCHECK=1 GOFLAGS="-mod=mod"
-V=/verif
+V=${VERIF_HOME:-$(cd "$(dirname "$0")" && pwd)}
 GO=${VERIF_GO:-go1.26.8}
 GOROOT_=$($GO env GOROOT) || { echo "build: $GO not usable" >&2; exit 2; }
 mkdir -p $V/.build/ov
